@@ -324,6 +324,26 @@ func neverValid(n ast.Node) bool {
 		return isNumber(n.Expr)
 	case *ast.Call:
 		return n.IsVariadic && len(n.Args) > 0 && endsInNumber(n.Args[len(n.Args)-1])
+	case *ast.FuncType:
+		// "[]func(int)(x + 1)": the parser reads "(x + 1)" as the result list of
+		// the function type; a value expression is never a result type
+		for _, r := range n.Result {
+			if r.Type != nil && notAType(r.Type) {
+				return true
+			}
+		}
+	}
+	return false
+}
+
+// notAType reports expressions that cannot denote a type whatever they refer to.
+func notAType(e ast.Expression) bool {
+	switch e := e.(type) {
+	case *ast.BasicLiteral, *ast.Render, *ast.Default, *ast.BinaryOperator, *ast.Call, *ast.CompositeLiteral,
+		*ast.Func, *ast.Slicing, *ast.TypeAssertion, *ast.Index:
+		return true
+	case *ast.UnaryOperator:
+		return e.Op != ast.OperatorPointer || notAType(e.Expr)
 	}
 	return false
 }
